@@ -660,3 +660,43 @@ def every_handler_checks_http_status(chk, P, key):
             ev.append(hs[0].loc)
         return True, "", ev
     chk.ob(key, "every response handler of the OTLP transport acknowledges a request only on the 2xx side of a test of its HTTP status", f)
+
+
+# ---- C17: every macro entry point that is given a level uses it ----------------------------------------------------------------------------------
+
+def macro_level_used(chk, P, key):
+    """`emit::info!`, `warn_evt!`, `debug_span!` .. differ from their level-less forms only in the `level` field of the options the proc-macro entry
+    point receives.  Each `expand_*` function whose options carry a `level` hands that field on - to `push_evt_props` (which adds the `lvl` property) or
+    to the span injection - on every path that produces tokens; dropping it yields events without a level, which the level filters then treat as the
+    default level."""
+    def f():
+        ev, n = [], 0
+        for k, b in sorted(P.bodies.items()):
+            if b.crate != "emit_macros" or b.is_closure or "expand" not in k.split("::")[-1] or b.argc < 1:
+                continue
+            ty = mir._strip_lifetimes(b.local_ty(1) or "").split("<")[0]
+            ad = P.adts.get(ty)
+            flds = [f_["name"] for v in (ad or {}).get("variants", []) for f_ in v["fields"]] if ad else []
+            if "level" not in flds:
+                continue
+            n += 1
+            sites = set()
+            for c in b.calls(normal_only=True):
+                for a in c.args:
+                    fp = mir.o_field_path(b.origin(a))
+                    if fp[0][0] == "param" and fp[1][:1] == ["level"]:
+                        sites.add(c.bb)
+            if not sites:
+                return False, ("%s never hands on the `level` of its options: the events / spans this macro form builds carry no `lvl` property, so "
+                               "`emit::warn!` and `emit::debug!` are filtered alike" % k), [], b.span
+            # every path that returns Ok passes one of the uses
+            oks = [bb for bb, j, st in b.statements(normal_only=True) if st["k"] == "assign" and st["rv"]["k"] == "agg" and st["rv"].get("variant") == "Ok"
+                   and "p" not in st["place"] and st["place"]["l"] == 0]
+            for ob in oks:
+                if not b.must_pass(sites, ends={ob}):
+                    return False, "%s can produce its tokens on a path that never uses the `level` it was given" % k, [], b.span
+            ev.append(b.span)
+        if n < 4:
+            raise mir.AnchorMissing("expand_* entry points with a `level` option (found %d)" % n)
+        return True, "", ev
+    chk.ob(key, "every macro entry point that is given a level hands it on (lvl property / span injection) on every token-producing path", f)
